@@ -75,6 +75,8 @@ class SimSlave:
         self.events = []                     # [ms, type, params]         (everything the device emitted)
         self.refused = 0
         self.push_hook = None                # push mode: called with every emitted event (webhooks)
+        self.request_hook = None             # called with (method, path) when a request reaches the device
+        self.slow = {}                       # port id -> ['never'] | ['later', ms]: PATCH .../value is answered 202 Accepted
         self.expire_hook = None              # called with (session id, number of undelivered events) when a session expires
         self.delivered = []                  # [ms, kind, payload]  every answer that reached the master, in arrival order
         self.inflight = 0                    # requests being processed / answers in transit (idle listen calls excluded)
@@ -197,6 +199,8 @@ class SimSlave:
     async def handle(self, method, path, query, headers, body):
         """-> (status, json-able body or None)"""
         self.requests.append([_ms(), method, path, copy.deepcopy(body)])
+        if self.request_hook is not None:
+            self.request_hook(method, path)
         if method != 'GET':
             self.polls_since_change = 0
         path = path.rstrip('/') or '/'
@@ -246,6 +250,11 @@ class SimSlave:
                             return 400, {'error': 'port-disabled'}
                         if not p.get('writable'):
                             return 400, {'error': 'read-only-port'}
+                        mode = self.slow.get(pid)
+                        if mode:             # a slow port: the value is queued; applied later, or never (the write fails)
+                            if mode[0] == 'later':
+                                asyncio.get_running_loop().call_later(mode[1] / 1000.0, self.set_value, pid, body)
+                            return 202, None
                         self.set_value(pid, body)
                         return 204, None
                 else:
